@@ -234,6 +234,20 @@ impl Board {
     pub fn current_position_hash(&self) -> u64 {
         self.position_info.current_position_hash()
     }
+
+    /// Depths of the en passant, castle rights, halfmove clock and repetition stacks.
+    #[cfg(chess_verif)]
+    pub fn verif_stack_depths(&self) -> [usize; 4] {
+        let [ep, rights, halfmove] = self.move_info.verif_stack_depths();
+        [ep, rights, halfmove, self.position_info.verif_repetition_state().0]
+    }
+
+    /// Fingerprint and live-entry count of the repetition occurrence map.
+    #[cfg(chess_verif)]
+    pub fn verif_repetition_fingerprint(&self) -> (u64, usize) {
+        let (_, fingerprint, live) = self.position_info.verif_repetition_state();
+        (fingerprint, live)
+    }
 }
 
 #[cfg(test)]
